@@ -43,3 +43,59 @@ Proof.
   exists d, dt. split; [exact Hp|]. split; [exact Hdt|]. cbn. repeat split.
 Qed.
 Print Assumptions C13_reemitted_record_roundtrip.
+
+(* ---------- the bytes in front of the old directory are never touched.
+   For EVERY sequence of writer calls after new_append (any arguments, any results, legal or not), on every sink that
+   may split each write arbitrarily but does not fail, and every compressor and checksum: whatever is in the sink at
+   the end -- finished, dropped, closed after an error, or still open -- its first [directory start] bytes are the
+   old archive's.  Hypothesis [renders]: every old record can be re-emitted (its re-encoded name and extra field
+   still fit their 16-bit length fields); decidable, and met by the example below.
+   Proof: Proofs/FloorInv.v -- an invariant over the whole writer state machine: the cursor never goes below the
+   floor, and the header patching of finish_file / end_extra_data only ever addresses records started behind it
+   (the raw flag protects the re-hydrated records until the first new record is pushed; on a failure-free sink
+   start_entry always gets that far). *)
+From Coq Require Import List.
+From ZipV Require Import Model.Dos Model.WriterCalls Proofs.WriterInv Proofs.ShortWrites Proofs.FloorInv.
+Import ListNotations.
+Theorem C13_old_bytes_preserved : forall enc crc data plan s calls s' rs,
+  new_append data plan = Ok s -> nofail plan -> Forall renders (ws_files s) -> Forall valid_call calls ->
+  run_calls enc crc s calls = (s', rs) ->
+  forall d, ws_inner s = WStorer d ->
+  match sink_bytes s' with Some b => take (d_pos d) b = take (d_pos d) data | None => True end.
+Proof. exact old_bytes_preserved. Qed.
+Print Assumptions C13_old_bytes_preserved.
+
+(* the hypotheses are met by a concrete archive (one stored entry "o1", 109 bytes, directory at 39), a plan of short
+   writes and a program that adds an entry and finishes; and the failure-free hypothesis cannot be dropped: when the
+   single stream_position call inside start_file fails, start_file reports the error, but the raw flag is already
+   cleared, and the following finish() patches the OLD entry's header (DESIGN.md 13.3, observations). *)
+Definition c13_base : bytes :=
+    [x50; x4b; x03; x04; x14; x00; x00; x00; x00; x00; xcf; x54; x71; x4d; x03; x0d; x09; xd6; x07; x00; x00; x00;
+    x07; x00; x00; x00; x02; x00; x00; x00; x6f; x31; x6f; x6c; x64; x20; x6f; x6e; x65; x50; x4b; x01; x02; x14;
+    x03; x14; x00; x00; x00; x00; x00; xcf; x54; x71; x4d; x03; x0d; x09; xd6; x07; x00; x00; x00; x07; x00; x00;
+    x00; x02; x00; x00; x00; x00; x00; x00; x00; x00; x00; x00; x00; xa4; x81; x00; x00; x00; x00; x6f; x31; x50;
+    x4b; x05; x06; x00; x00; x00; x00; x01; x00; x01; x00; x30; x00; x00; x00; x27; x00; x00; x00; x00; x00].
+Definition c13_opts : wopts := {| o_method := CompressionMethod_Stored; o_level := None; o_time := DateTime_default;
+                                  o_perm := None; o_large := false; o_encrypt := None |}.
+Definition c13_prog : list wcall := [KStartFile [x6e] c13_opts; KWrite [x41; x42]; KFinish].
+
+Example C13_old_bytes_nonvacuous :
+  exists s d, new_append c13_base [WShort 1; WShort 2] = Ok s /\ nofail [WShort 1; WShort 2] /\ Forall renders (ws_files s) /\
+              ws_files s <> [] /\ Forall valid_call c13_prog /\ ws_inner s = WStorer d /\ d_pos d = 39 /\
+              exists b, sink_bytes (fst (run_calls (fun _ _ x => x) (fun _ => 0) s c13_prog)) = Some b /\ len b = 189.
+Proof.
+  eexists. eexists. split; [vm_compute; reflexivity|]. split; [repeat constructor; discriminate|].
+  split; [repeat constructor; eexists; vm_compute; reflexivity|]. split; [discriminate|].
+  split; [repeat constructor; vm_compute; discriminate|]. split; [reflexivity|]. split; [reflexivity|].
+  eexists. split; vm_compute; reflexivity.
+Qed.
+
+Theorem C13_failing_sink_refuted :
+  exists plan s b, new_append c13_base plan = Ok s /\ Forall renders (ws_files s) /\ Forall valid_call c13_prog /\
+    sink_bytes (fst (run_calls (fun _ _ x => x) (fun _ => 0) s c13_prog)) = Some b /\ take 39 b <> take 39 c13_base.
+Proof.
+  exists [WFail]. eexists. eexists. split; [vm_compute; reflexivity|].
+  split; [repeat constructor; eexists; vm_compute; reflexivity|]. split; [repeat constructor; vm_compute; discriminate|].
+  split; [vm_compute; reflexivity|]. vm_compute. discriminate.
+Qed.
+Print Assumptions C13_failing_sink_refuted.
